@@ -45,6 +45,9 @@ func (g *Gen) amt(bal *big.Int, cap int64) int64 {
 	if g.R.Chance(7) {
 		return b + 1 + int64(g.R.Pick(50))
 	}
+	if g.R.Chance(3) {
+		return 0 // zero amounts: refused by ValidateBasic / the keepers, or accepted as a no-op — the model must agree
+	}
 	if b <= 0 {
 		return 1 + int64(g.R.Pick(20))
 	}
@@ -174,7 +177,7 @@ func (g *Gen) receiver(a, t int) int {
 		if t > 0 {
 			return tokAcct + t
 		}
-		return aWFX
+		return a // (coins or WFX sent to the WFX contract itself over-collateralise it: outside the stated equations)
 	}
 }
 
@@ -357,7 +360,7 @@ func (g *Gen) Next(step int) Op {
 			c = g.chainOf(t)
 			bal := g.bankBal(a, t, 0)
 			x := g.amt(bal, 4000)
-			fee := int64(1 + r.Pick(20))
+			fee := int64(r.Pick(21)) // 0 (refused) .. 20
 			if r.Chance(30) && bal.IsInt64() && bal.Int64() > x { // amount + fee = exactly the balance
 				fee = bal.Int64() - x
 			}
@@ -559,7 +562,7 @@ func (g *Gen) Next(step int) Op {
 			if nat {
 				bal = g.bankBal(a, 0, 0)
 			}
-			return Op{K: k, C: c, T: t, A: a, X: g.amt(bal, 4000), Y: int64(1 + r.Pick(20)), Flag: nat}
+			return Op{K: k, C: c, T: t, A: a, X: g.amt(bal, 4000), Y: int64(r.Pick(21)), Flag: nat}
 		case "BankSend":
 			a, t = g.holder(false)
 			c = g.chainOf(t)
